@@ -269,7 +269,11 @@ pub uninterp spec fn id_has_fields(i: Identifier) -> bool;
 pub open spec fn iden_mut_ok(id: Identifier, env: Environment, global: VarMapping) -> bool {
     forall|k: int| 0 <= k < id_fields_seq(id).len() ==> target_ok(env, global, #[trigger] id_fields_seq(id)[k])
 }
+//@@ INCLUDE ident_spec.inc.rs
 impl Identifier {
+    /// unit IDENT verifies this contract on the real body; here it is assumed (assume-guarantee)
+    #[verifier::external_body]
+    pub fn all_calls(&self) -> (r: Vec<IdentiCall>) ensures r@ == calls_of(*self) { unimplemented!() }
     /// A-EXT: the (flag, name) pairs of an identifier (recursive iterator code: a function of it)
     #[verifier::external_body]
     pub fn fields(&self, pos: Position) -> (r: TypeResult<Vec<(bool, String)>>)
@@ -296,6 +300,16 @@ pub fn verif_string_is(a: &String, b: &str) -> (r: bool) ensures r == (a@ == b@)
 #[verifier::external_body]
 pub fn verif_errs(errors: &Vec<String>, pos: Position) -> (r: Vec<TypeErr>) ensures r@.len() == errors@.len() { unimplemented!() }
 pub const SELF: &'static str = "self";
+pub mod arg {
+//@@ CONST src/check/context/arg/mod.rs | SELF
+}
+impl IdentiCall {
+    /// unit IDENT verifies this contract on the real body; here it is assumed (assume-guarantee)
+    #[verifier::external_body]
+    pub fn without_obj(&self, object: &str, pos: Position) -> (r: TypeResult<IdentiCall>)
+        ensures match stripped(*self, object@) { Some(c) => r == Ok::<IdentiCall, Vec<TypeErr>>(c), None => r is Err && r->Err_0@.len() >= 1 },
+    { unimplemented!() }
+}
 
 //@@ FN src/check/constrain/generate/call.rs | free | check_iden_mut | props=C07,C03
 //@@ REPLACE deep
@@ -357,12 +371,62 @@ pub fn verif_havoc_print_constraints(args: &Vec<AST>, env: &Environment, constr:
 pub fn verif_havoc_local_function_loop(functions: HashSet<(bool, Expected)>, args: &Vec<AST>, env: &Environment, constr: &mut ConstrBuilder)
     ensures mono(*old(constr), *final(constr)), grows(*old(constr), *final(constr)),
 { unimplemented!() }
-/// OUTLINED closure chain of the Reassign arm: `identifier.all_calls().iter().flat_map(..without_obj(SELF)..).fold(env.clone(),
-/// |env, self_var| env.assigned_to(&self_var))` — discharges the assigned `self` fields, touches nothing else
+// ---- the Reassign arm's bookkeeping of constructor fields (C09): `identifier.all_calls().iter().flat_map(c1).flat_map(c2).fold(env.clone(), c3)`
+/// the name of the field if the chain is exactly `self.<field>`
+pub open spec fn self_field(c: IdentiCall) -> Option<Seq<char>> {
+    match stripped(c, arg::SELF@) { Some(IdentiCall::Iden(v)) => Some(v@), _ => None }
+}
+/// the fields of self the first n targets assign DIRECTLY (`self.x := ..`; not `self.x.y := ..`, not `x := ..`)
+pub open spec fn self_fields(calls: Seq<IdentiCall>, n: int) -> Set<Seq<char>>
+    decreases n
+{
+    if n <= 0 || n > calls.len() { Set::empty() } else {
+        match self_field(calls[n - 1]) { Some(v) => self_fields(calls, n - 1).insert(v), None => self_fields(calls, n - 1) }
+    }
+}
+pub open spec fn strip_post(c: IdentiCall, o: TypeResult<IdentiCall>) -> bool {
+    match stripped(c, arg::SELF@) { Some(x) => o == Ok::<IdentiCall, Vec<TypeErr>>(x), None => o is Err }
+}
+pub open spec fn pick_post(ic: IdentiCall, o: Option<String>) -> bool {
+    match ic { IdentiCall::Iden(v) => o == Some(v), IdentiCall::Call(_, _) => o is None }
+}
+pub open spec fn discharge_post(e: Environment, v: Seq<char>, o: Environment) -> bool {
+    o == (Environment { unassigned: o.unassigned, ..e }) && hss(o.unassigned) == hss(e.unassigned).remove(v)
+}
+/// one element's passage through the chain: environment before -> after
+pub open spec fn chain_step(c: IdentiCall, o1: TypeResult<IdentiCall>, o2: Option<String>, before: Environment, after: Environment) -> bool {
+    strip_post(c, o1) && match o1 {
+        Ok(ic) => pick_post(ic, o2) && match o2 { Some(v) => discharge_post(before, v@, after), None => after == before },
+        Err(_) => after == before,
+    }
+}
+/// A-REWRITE: `calls.iter().flat_map(f1).flat_map(f2).fold(init, f3)` where f1 yields a Result (iterated: its Ok value, or nothing)
+/// and f2 an Option: every element in order goes through f1, an Ok result through f2, a Some result is folded in by f3.  The ghost
+/// results name f1's / f2's answers and the accumulator before each element.
 #[verifier::external_body]
-pub fn verif_assigned_env(identifier: &Identifier, env: &Environment, pos: Position) -> (r: Environment)
-    ensures r == (Environment { unassigned: r.unassigned, ..*env }), hss(r.unassigned).subset_of(hss(env.unassigned)),
+pub fn verif_flat2_fold<F1: Fn(&IdentiCall) -> TypeResult<IdentiCall>, F2: Fn(IdentiCall) -> Option<String>, F3: Fn(Environment, String) -> Environment>(
+        calls: &Vec<IdentiCall>, f1: F1, f2: F2, init: Environment, f3: F3)
+    -> (r: (Environment, Ghost<Seq<TypeResult<IdentiCall>>>, Ghost<Seq<Option<String>>>, Ghost<Seq<Environment>>))
+    requires forall|c: IdentiCall| #[trigger] f1.requires((&c,)), forall|ic: IdentiCall| #[trigger] f2.requires((ic,)), forall|e: Environment, v: String| #[trigger] f3.requires((e, v)),
+        forall|c: IdentiCall, o: TypeResult<IdentiCall>| #[trigger] f1.ensures((&c,), o) ==> strip_post(c, o),
+        forall|ic: IdentiCall, o: Option<String>| #[trigger] f2.ensures((ic,), o) ==> pick_post(ic, o),
+        forall|e: Environment, v: String, o: Environment| #[trigger] f3.ensures((e, v), o) ==> discharge_post(e, v@, o),
+    ensures ({ let o1 = r.1@; let o2 = r.2@; let es = r.3@; let n = calls@.len() as int;
+        o1.len() == n && o2.len() == n && es.len() == n + 1 && es[0] == init && r.0 == es[n]
+        && forall|k: int| 0 <= k < n ==> chain_step(calls@[k], o1[k], o2[k], #[trigger] es[k], es[k + 1]) }),
 { unimplemented!() }
+/// the fold discharges exactly the directly assigned fields of self and touches nothing else
+pub proof fn lemma_chain_discharges(calls: Seq<IdentiCall>, o1: Seq<TypeResult<IdentiCall>>, o2: Seq<Option<String>>, es: Seq<Environment>, n: int)
+    requires o1.len() == calls.len(), o2.len() == calls.len(), es.len() == calls.len() + 1, 0 <= n <= calls.len(),
+        forall|k: int| 0 <= k < calls.len() ==> chain_step(calls[k], o1[k], o2[k], #[trigger] es[k], es[k + 1]),
+    ensures es[n] == (Environment { unassigned: es[n].unassigned, ..es[0] }), hss(es[n].unassigned) =~= hss(es[0].unassigned).difference(self_fields(calls, n)),
+    decreases n
+{
+    if n > 0 {
+        lemma_chain_discharges(calls, o1, o2, es, n - 1);
+        assert(chain_step(calls[n - 1], o1[n - 1], o2[n - 1], es[n - 1], es[n]));
+    }
+}
 
 // ---- property_call (C09: a constructor may not READ a field of self that is not assigned yet) ---------------------------------
 /// OUTLINED `instance.last().ok_or_else(|| vec![..])`
@@ -426,7 +490,9 @@ pub open spec fn call_post(ast: AST, env: Environment, ctx: Context, r: Constrai
             && (op == NodeOp::Assign ==> (r matches Ok(e)
                 // `target >= value` is recorded; both sides are checked; only constructor-field bookkeeping changes
                 && has(b1, exp_of(*left), exp_of(*right))
-                && e == (Environment { unassigned: e.unassigned, ..env }) && hss(e.unassigned).subset_of(hss(env.unassigned))
+                && e == (Environment { unassigned: e.unassigned, ..env })
+                // exactly the fields of self the target assigns directly (`self.x := ..`) are discharged (constructor bookkeeping)
+                && hss(e.unassigned) =~= hss(env.unassigned).difference(self_fields(calls_of(id), calls_of(id).len() as int))
                 && seen(b1, *right, e) && seen(b1, *left, e)))
             // a compound assignment is checked as the plain assignment it stands for (same target: the tests above apply again)
             && (op != NodeOp::Assign ==> (r matches Ok(e) && e == env
@@ -447,9 +513,9 @@ pub open spec fn call_post(ast: AST, env: Environment, ctx: Context, r: Constrai
 }
 
 //@@ FN src/check/constrain/generate/call.rs | free | gen_call | props=C07,C05,C08,C09,C03
-//@@ REPLACE pin=434f0268e720
-//@@< identifier .all_calls() .iter() .flat_map($$) .flat_map($$) .fold($$)
-//@@> verif_assigned_env(&identifier, env, left.pos)
+//@@ REPLACE deep
+//@@< let env_assigned_to: Environment = identifier .all_calls() .iter() .flat_map(|call| $$) .flat_map(|identi_call| $$) .fold(env.clone(), |env, self_var| $$);
+//@@> let verif_calls = identifier.all_calls(); let (env_assigned_to, Ghost(verif_o1), Ghost(verif_o2), Ghost(verif_es)) = verif_flat2_fold(&verif_calls, |call: &IdentiCall| -> (o: TypeResult<IdentiCall>) ensures /*# a_target_counts_only_through_its_chain_without_a_leading_self [C09] #*/ strip_post(*call, o), { $$1 }, |identi_call: IdentiCall| -> (o: Option<String>) ensures /*# only_a_direct_field_of_self_is_discharged [C09] #*/ pick_post(identi_call, o), { $$2 }, env.clone(), |env: Environment, self_var: String| -> (o: Environment) ensures /*# discharging_removes_exactly_that_field [C09] #*/ discharge_post(env, self_var@, o), { $$3 }); proof { lemma_chain_discharges(verif_calls@, verif_o1, verif_o2, verif_es, verif_calls@.len() as int); }
 //@@ REPLACE
 //@@< f_name == StringName::from(function::PRINT)
 //@@> verif_is_print(&f_name)
